@@ -133,13 +133,26 @@ def gen_sv_case(rng, cid, nops):
                 lines.append(f"sv movector {r} {s}")
                 ex[r], size[r], arr[r] = True, size[s], arr[s]
                 size[s], arr[s] = 0, False
+            elif rng.random() < 0.15:
+                n = rng.choice([1, 2, 3, 5, 8])
+                kk = rng.randrange(1, n + 3)
+                lines.append(f"sv tnew {r} {n} {kk}")
+                ex[r] = True
+                size[r], arr[r] = (n, True) if kk > n else (0, False)
             else:
                 n = rng.choice([0, 0, 1, 2, 3, 5, 8])
                 lines.append(f"sv new {r} {n}")
                 ex[r], size[r], arr[r] = True, n, n > 0
             continue
         k = rng.random()
-        if k < 0.25:
+        if k < 0.08:
+            # an element constructor throws in the middle of resize(): the vector must be unchanged
+            n = rng.choice([1, 2, 3, 4, 6, 9])
+            kk = rng.randrange(1, n + 3)
+            lines.append(f"sv tresize {r} {n} {kk}")
+            if kk > n:
+                size[r], arr[r] = n, True
+        elif k < 0.25:
             n = rng.choice([0, 1, 2, 3, 4, 6, 9])
             lines.append(f"sv resize {r} {n}")
             size[r], arr[r] = n, True
